@@ -90,6 +90,18 @@ Definition param_names (rest : bool) (params : list val) : list text :=
     end
   else map param_name params.
 
+(* destructure-function hands out the parameter symbols themselves (a gensym has no usable name) *)
+Definition param_symbol (p : val) : val :=
+  match getv p with VSym _ => p | _ => tsym (s "#<invalid-parameter-name>") end.
+
+Definition param_symbols (rest : bool) (params : list val) : list val :=
+  if rest then
+    match rev params with
+    | last :: init_rev => map param_symbol (rev init_rev) ++ [tsym (s "&"); param_symbol last]
+    | [] => []
+    end
+  else map param_symbol params.
+
 (* ---- standard input: one buffered reader for the whole session (IO/Stdin.v) ---- *)
 
 (* ---- metadata as a property list (get-metadata) ---- *)
@@ -196,6 +208,18 @@ Definition make_function_internal (args : list val) (env : val) (envmod : text) 
 
 (* natives that do not call back into the evaluator; arguments already validated against the
    generated signature.  None = not one of these. *)
+(* answers of a scripted debugger to [receive]: the entries of [inject] with key 0, in order; the
+   last one is never used up *)
+Fixpoint has_answer (inj : list (N * text)) : bool :=
+  match inj with [] => false | (k, _) :: r => (k =? 0) || has_answer r end.
+Fixpoint next_answer (inj : list (N * text)) : option text * list (N * text) :=
+  match inj with
+  | [] => (None, [])
+  | (k, c) :: r =>
+    if k =? 0 then (Some c, if has_answer r then r else (k, c) :: r)
+    else let '(a, r') := next_answer r in (a, (k, c) :: r')
+  end.
+
 Definition simple_native (st : state) (name : text) (args : list val) (d : N) : option (state * res) :=
   let is n := text_eqb name (s n) in
   let bad := Some (st, RPanic "model: argument shape after validation") in
@@ -355,7 +379,7 @@ Definition simple_native (st : state) (name : text) (args : list val) (d : N) : 
       match getv f with
       | VFun mac rest ps b e em =>
         Some (st, ROk (plist [("kind", vsym (if mac then "macro" else "lambda"));
-                              ("parameters", vec_to_list (map tsym (param_names rest ps)));
+                              ("parameters", vec_to_list (param_symbols rest ps));
                               ("body", b); ("environment", e); ("module", tsym em)]))
       | VNative n =>
         match find_native n native_table with
@@ -406,9 +430,12 @@ Definition simple_native (st : state) (name : text) (args : list val) (d : N) : 
     end
   else if is "receive" then
     if attached st then
-      match chan st with
+      (* a scripted debugger answers each receive at the moment the worker blocks in it (entries of
+         [inject] with key 0, the last one repeated for ever); commands already queued come first *)
+      let '(answer, inj) := next_answer (inject st) in
+      match chan st ++ (match answer with Some c => [c] | None => [] end) with
       | c :: r =>
-        let st' := State (mods st) (cur st) (gensyms st) (out st) (stdin st) (attached st) r (inject st) (polls st) in
+        let st' := State (mods st) (cur st) (gensyms st) (out st) (stdin st) (attached st) r inj (polls st) in
         if text_eqb c (s "INTERRUPT") then Some (st', RSig (make_error "interrupted" name []))
         else if text_eqb c (s "ABORT") then Some (st', RAbort)
         else Some (st', ROk (plist [("command", tsym c)]))
